@@ -60,6 +60,15 @@ pub struct App;
 fn u_concrete(deps: &App, a: i32, b: i32) -> i32 {
     a - b
 }
+// a trait OBJECT as dependency is a concrete dependency type, not a generic one
+#[entrait(UDyn, mock_api = UDynMock)]
+fn u_dyn(deps: &dyn core::any::Any, a: i32, b: i32) -> i32 {
+    a - b
+}
+#[entrait(UDynAuto, mock_api = UDynAutoMock)]
+fn u_dyn_auto(deps: &(dyn core::fmt::Debug + Send + Sync), a: i32) -> i32 {
+    a
+}
 #[entrait(UByValue, mock_api = UByValueMock)]
 fn u_by_value<D: Clone>(deps: &D, a: String, b: String) -> String {
     b
